@@ -13,7 +13,7 @@ LEVEL_TEXT = ("Coq theorems (abstract ordered field with conjugation; every P, N
               "the axis theorems (entry j of eigen / pmusic / pev is the pseudo-spectrum at the bin frequencies() reports for j, both "
               "parities, real and complex).  The SVD is a Section variable constrained by its specification.  Tie: FB matrix exactly at "
               "Gaussian rationals, decision logic on the enumerated argument space incl. every rejection, pseudo-spectrum in binary64 "
-              "given numpy's (S, Vh), all evaluated inside Coq; property-directed search on the implementation.")
+              "given numpy's (S, Vh) (and with exactly-zero / denormal / at-the-floor singular values substituted after the SVD), all evaluated inside Coq; property-directed search on the implementation.")
 TRUSTED = ["Coq 8.16.1 kernel + vm_compute", "hand-written model coq/Model/Eigen.v (tie = correspondence run)",
            "numpy.linalg.svd modelled by its specification (S non-increasing, V unitary, FB^H FB V = V diag(S^2)), not verified; the harness "
            "re-checks the three facts numerically on every captured (S, Vh)",
@@ -27,8 +27,8 @@ UNPROVED = ["'the K largest local maxima lie within one bin of the true frequenc
             "first K are non-zero and that numpy's trailing values are negligible is search only",
             "everything downstream of the SVD is conditional on the SVD specification",
             "AIC/MDL values themselves (logarithms): only 'NSIG = argmin + 1' is modelled",
-            "EV positivity needs positive noise singular values; on exactly rank-deficient data it fails in the model and in the code "
-            "(Example ev_zero_singular_value_not_positive; violation key ev_zero_singular_value/*)"]
+            "EV positivity is proved for the floored weights 1/max(S_I, eps*S_0) from eps > 0, S_0 > 0, S_I >= 0 (D22 repaired); that the binary64 "
+            "peaks survive exactly-zero singular values is search only (deterministic rank-deficient witnesses, key ev_zero_singular_value/*)"]
 ASSUMPTIONS = ["exact arithmetic in the theorems", "SVD specification (Section variables)",
                "local-maxima clause is checked literally only for true bins pairwise >= 2 bins apart (two adjacent on-grid bins cannot both be "
                "local maxima); for every set the stronger dominance clause is checked: each true bin exceeds every bin farther than one bin from all true bins"]
@@ -60,11 +60,11 @@ Definition rel_each (tol : float) (l1 l2 : list FloatC) : bool :=
   forallb (fun p => PrimFloat.leb (fabs (fst (fst p) - fst (snd p))) (tol * fabs (fst (snd p)))
                     && PrimFloat.leb (fabs (snd (fst p))) (tol * fabs (fst (snd p)))) (combine l1 l2).
 Definition same_list (l1 l2 : list FloatC) : bool := rel_each 0 l1 l2.
-Definition psd_case tol meth isreal scale nsig thr crit (amin : nat) (tbl : list FloatC) (NFFT N P : nat) (S : list FloatC) (Vh : list (list FloatC))
+Definition psd_case tol meth (eps : FloatC) isreal scale nsig thr crit (amin : nat) (tbl : list FloatC) (NFFT N P : nat) (S : list FloatC) (Vh : list (list FloatC))
                     (ipsd iclass : list FloatC) : bool :=
   let x := List.repeat (0, 0) N in
-  match eigen (OF:=fc_ops) meth nsig thr crit amin (tw_table tbl) NFFT x P S Vh,
-        pclass (OF:=fc_ops) meth isreal scale nsig thr crit amin (tw_table tbl) NFFT x P S Vh with
+  match eigen (OF:=fc_ops) meth eps nsig thr crit amin (tw_table tbl) NFFT x P S Vh,
+        pclass (OF:=fc_ops) meth eps isreal scale nsig thr crit amin (tw_table tbl) NFFT x P S Vh with
   | inr (psd, ev), inr (cpsd, cev) => rel_each tol psd ipsd && rel_each tol cpsd iclass && same_list ev S && same_list cev S
   | _, _ => false
   end.
@@ -75,6 +75,11 @@ Definition psd_case tol meth isreal scale nsig thr crit (amin : nat) (tbl : list
 class Tap:
     """wraps spectrum.eigenfre.svd and ._get_signal_space of the snapshot module to observe FB, (S, Vh) and the chosen NSIG"""
 
+    def __init__(self, s_override=None):
+        # s_override: function S -> S' ; the snapshot's eigen() then continues with (U, S', Vh): used to drive the code after the SVD
+        # with exactly-zero / denormal singular values (the SVD is an oracle of the model, so any (S, Vh) is a legitimate input)
+        self.s_override = s_override
+
     def __enter__(self):
         import spectrum.eigenfre as ef
         self.ef = ef; self.svd0 = ef.svd; self.gss0 = ef._get_signal_space
@@ -83,6 +88,8 @@ class Tap:
         def svd(a, *args, **kw):
             self.fb = np.array(a, copy=True)
             r = self.svd0(a, *args, **kw)
+            if self.s_override is not None:
+                r = (r[0], self.s_override(np.array(r[1], copy=True)), r[2])
             self.S = np.array(r[1], copy=True); self.Vh = np.array(r[2], copy=True)
             return r
 
@@ -126,6 +133,9 @@ def classify(e):
 
 
 # ----------------------------------------------------------------------------- independent oracles
+EPS = float(np.finfo(float).eps)
+
+
 def build_fb(x, P):
     """forward-backward data matrix of order P built from slices (independent of the double loop of the code)"""
     x = np.asarray(x, dtype=complex); N = len(x); NP = min(N - P, 100)
@@ -169,7 +179,7 @@ def pseudo_reference(x, P, ns, NFFT, method):
         d = 0.0
         for I in range(ns, P):
             t = abs(np.vdot(e, V[:, I])) ** 2
-            d += t / S[I] if method == 'ev' else t
+            d += t / max(S[I], EPS * S[0]) if method == 'ev' else t
         out[j] = 1.0 / d if d != 0 else np.inf
     gap = (S[ns - 1] - S[ns]) / S[0] if 0 < ns < P else 1.0
     return out, S, gap
@@ -242,9 +252,9 @@ def check_noiseless(x, P, K, NFFT, bins, method, sampling=1.0):
     psd, S = eigen(x, P, NSIG=K, NFFT=NFFT, method=method)
     psd = np.asarray(psd)
     if method == 'ev' and np.any(np.asarray(S)[K:] == 0):
-        # genuine defect of the current code (see notes/design_updates/C17.md, D22): on exactly rank-deficient data LAPACK returns
-        # singular values that are exactly 0.0 and EV divides by them: abs(Z)**2/0 = inf (pseudo-spectrum 0) or 0/0 = nan.
-        # Every other EV clause fails for the same reason, so exactly this one key is reported for such an input.
+        # D22 (repaired in b2427b9: EV floors the singular values at eps*S[0]): on exactly rank-deficient data LAPACK returns singular values
+        # that are exactly 0.0; dividing by them gave abs(Z)**2/0 = inf (pseudo-spectrum 0) or 0/0 = nan.  If that comes back, every other EV
+        # clause fails for the same reason, so exactly this one key is reported for such an input; otherwise the ordinary clauses follow.
         ok = not np.isnan(psd).any() and np.all(psd > 0)
         p = pev(x, P, NSIG=K, NFFT=NFFT, sampling=sampling); p()
         cp = np.asarray(p.psd, dtype=float)
@@ -326,7 +336,7 @@ def check_pseudo_def(x, P, NFFT, method, kw, kwtag):
     if len(psd) != NFFT:
         return [('axis_length/eigen/' + tag, 'length %d instead of %d' % (len(psd), NFFT))]
     # the reference and the implementation run the same LAPACK routine on (what should be) the same matrix; the error is that of the sums
-    kap = max(1.0, P * float(np.max(ref_music)) * ((P - ns) * S0[ns] / max(S0[-1], 1e-300) if method == 'ev' else 1.0))
+    kap = max(1.0, P * float(np.max(ref_music)) * ((P - ns) * max(S0[ns], EPS * S0[0]) / max(S0[-1], EPS * S0[0]) if method == 'ev' else 1.0))
     if kap > 1e5:
         return None
     if not np.allclose(psd, ref, rtol=1e-9 * kap, atol=0):
@@ -431,6 +441,7 @@ def opt_f(v):
 
 
 METH = {'music': 'MMusic', 'ev': 'MEv'}
+FLOOR_MODES = ['zero', 'denormal', 'below', 'above', 'equal']
 CRIT = {'aic': 'CAic', 'mdl': 'CMdl'}
 
 
@@ -534,8 +545,8 @@ def run(ctx):
 
     # ---------------- (3) pseudo-spectrum and class pipelines in binary64, given numpy's (S, Vh)
     cases = []; meta = []
-    want = ctx.q(60, 400)
-    tries = 0
+    want = ctx.q(80, 400)
+    tries = 0; nfloor = 0
     while len(cases) < want and tries < 20 * want:
         tries += 1
         cplx = bool(rng.integers(0, 2)); P = int(rng.integers(2, 9)); N = int(rng.integers(2 * P, 2 * P + 20))
@@ -553,14 +564,25 @@ def run(ctx):
         else:
             kw = dict(criteria=str(rng.choice(['aic', 'mdl'])))
         sampling = float(rng.choice([1.0, 2.0, 1024.0])); sbf = bool(rng.integers(0, 2))
-        with Tap() as tap:
+        # D22: a third of the explicit-NSIG cases continue after the SVD with exactly-zero / denormal / at-the-floor singular values
+        floor_mode = None
+        if mode == 'nsig' and len(cases) % 2 == 0:
+            floor_mode = FLOOR_MODES[nfloor % len(FLOOR_MODES)]; m = 'music' if nfloor % 11 == 10 else 'ev'
+        ntail = int(rng.integers(1, P)); dn = float(rng.choice([5e-324, 1e-310, 2.5e-308]))
+
+        def override(Sv, floor_mode=floor_mode, ntail=ntail, dn=dn):
+            Sv = np.array(Sv, dtype=float); fl0 = EPS * Sv[0]
+            val = {'zero': 0.0, 'denormal': dn, 'below': fl0 * (1 - 2.0 ** -10), 'above': fl0 * (1 + 2.0 ** -10), 'equal': fl0}[floor_mode]
+            Sv[len(Sv) - ntail:] = val
+            return Sv
+        with Tap(override if floor_mode else None) as tap:
             psd, S = eigen(x, P, NFFT=NFFT, method=m, **kw)
             ns = int(tap.nsig); S1 = tap.S; Vh1 = tap.Vh; fb1 = tap.fb
             p = (pmusic if m == 'music' else pev)(x, P, NFFT=NFFT, sampling=sampling, scale_by_freq=sbf, **kw); p()
             S2 = tap.S; Vh2 = tap.Vh
         if not (np.array_equal(S1, S2) and np.array_equal(Vh1, Vh2)):
             ctx.count('psd/regenerated_svd_not_reproducible'); continue
-        if not svd_spec_ok(fb1, S1, Vh1):
+        if floor_mode is None and not svd_spec_ok(fb1, S1, Vh1):
             ctx.broken.append({'theorem': 'svd-specification (numpy result does not meet S sorted / V unitary / FB^H FB V = V S^2)', 'where': 'N=%d P=%d' % (N, P), 'log': ''})
         amin = 0
         if mode == 'criteria':
@@ -571,22 +593,28 @@ def run(ctx):
             mth = kw['threshold'] * S1.min()
             if np.any((np.abs(S1 - mth) <= 1e-12 * abs(mth)) & (S1 != mth)):
                 ctx.count('psd/regenerated_threshold_tie'); continue
-        Dm = np.zeros(NFFT)
-        for I in range(ns, P):
-            Dm += np.abs(np.fft.fft(-Vh1[I], NFFT)) ** 2
-        kap = P / max(Dm.min(), 1e-300) * ((S1[ns] / max(S1[-1], 1e-300)) * (P - ns) if m == 'ev' else 1.0)
+        # each term w_I |Z_I|^2 carries an absolute error ~ ulp * P * w_I: condition = P * sum(w) / min_k D_k
+        Dw = np.zeros(NFFT); wsum = 0.0
+        with np.errstate(all='ignore'):
+            for I in range(ns, P):
+                w = 1.0 / max(S1[I], EPS * S1[0]) if m == 'ev' else 1.0
+                Dw += w * np.abs(np.fft.fft(-Vh1[I], NFFT)) ** 2; wsum += w
+            kap = P * wsum / max(Dw.min(), 1e-300) if wsum > 0 else 1.0
         if not np.isfinite(kap) or kap > 1e4 or not np.all(np.isfinite(psd)) or not np.all(np.isfinite(p.psd)):
             ctx.count('psd/regenerated_illconditioned'); continue
         tol = 1e-9 * max(1.0, kap)
         tbl = [cmath.exp(-2j * cmath.pi * j / NFFT) for j in range(NFFT)]
         isreal = (p.datatype == 'real')
         scale = opt_f(2 * np.pi / p.df) if sbf else 'None'
-        cases.append('psd_case %s %s %s %s %s %s %s %d%%nat %s %d%%nat %d%%nat %d%%nat %s [%s] %s %s' % (
-            fl(tol), METH[m], 'true' if isreal else 'false', scale, nsig_lit(kw.get('NSIG')), opt_f(kw.get('threshold')),
+        cases.append('psd_case %s %s %s %s %s %s %s %s %d%%nat %s %d%%nat %d%%nat %d%%nat %s [%s] %s %s' % (
+            fl(tol), METH[m], fc(EPS), 'true' if isreal else 'false', scale, nsig_lit(kw.get('NSIG')), opt_f(kw.get('threshold')),
             CRIT[kw.get('criteria', 'aic')], amin, fcl(tbl), NFFT, N, P, fcl(S1), '; '.join(fcl(r) for r in Vh1),
             fcl(psd), fcl(p.psd)))
-        meta.append({'function': 'eigen + ' + type(p).__name__, 'x': vlib.hexv(x), 'P': P, 'NFFT': NFFT, 'method': m, 'kw': kw, 'sampling': sampling, 'scale_by_freq': sbf})
+        meta.append({'function': 'eigen + ' + type(p).__name__, 'x': vlib.hexv(x), 'P': P, 'NFFT': NFFT, 'method': m, 'kw': kw, 'sampling': sampling, 'scale_by_freq': sbf,
+                     'singular_values_after_svd': floor_mode or 'numpy', 'S': vlib.hexv(S1)})
         ctx.count('psd/%s/%s/%s/%s' % (m, 'complex' if cplx else 'real', 'even' if NFFT % 2 == 0 else 'odd', mode))
+        if floor_mode:
+            ctx.count('psd/floor/%s/%s' % (floor_mode, m)); nfloor += 1
         ctx.case(('psd', x.tobytes(), P, NFFT, m, repr(kw)), nontrivial=(P >= 3), sample={'function': 'eigen/' + type(p).__name__, 'N': N, 'P': P, 'NFFT': NFFT, 'method': m, 'kw': repr(kw)})
     for i in ctx.coq_cases('c17_pseudo', PRE_F, cases, shard=10, descr='eigen() and pmusic/pev .psd vs Model.Eigen.eigen / pclass in binary64 given numpy (S, Vh)'):
         ctx.corr_disagreement('eigen/pclass', i, meta[i])
